@@ -106,6 +106,49 @@ def _task(args):
     return st, vios, sample
 
 
+def _task_history(args):
+    """one decoder and ONE encoder for all definitions of a PGN, forward / backward / again: a per-PGN
+    cache of the encode function (or of anything else) keyed too coarsely shows here"""
+    pgns, = args
+    db = refdb.db()
+    dec, enc = NMEA2000Decoder(), NMEA2000Encoder()
+    vios = []
+    st = {"cases": 0, "roundtrips": 0, "nontrivial": 0, "defs": 0}
+    for pgn in pgns:
+        ds = [d for d in db.by_pgn[pgn] if d.encodable]
+        if not ds:
+            continue
+        seq = []
+        for d in ds:
+            for b in ("mid", "max"):
+                p, n = payloads.build(d, payloads.base_assignment(d, b))
+                seq.append((d, b, p, n))
+        for order, items in (("forward", seq), ("backward", seq[::-1]), ("again", seq)):
+            for d, b, p, n in items:
+                st["cases"] += 1
+                msg = decode(dec, pgn, p, n)
+                if msg is None or msg.id != d.id:
+                    continue
+                st["roundtrips"] += 1
+                st["nontrivial"] += 1
+                try:
+                    res = compare(d, p, n, encode_payload(enc, msg))
+                except Exception as ex:  # noqa: BLE001
+                    res = [("encode_failed", {"definition": d.id, "error": type(ex).__name__, "cause": "error"}, f"{type(ex).__name__}: {ex}")]
+                    if any(f.bits > 48 or f.type == "FLOAT" for f in d.fields) and "out of range" in str(ex):
+                        res = []      # last representable step of a >48-bit field / non-finite float (DESIGN 2.1)
+                for kind, facts, detail in res:
+                    if len(vios) < 40:
+                        vios.append({"kind": kind, "facts": dict(facts, mechanism="depends_on_history"), "signature": f"hist:{kind}:{pgn}:{d.id}",
+                                     "detail": f"[PGN {pgn} {d.id} base={b}, {order} pass over the PGN's definitions on one encoder] {detail}",
+                                     "case": {"pgn": pgn, "definition": d.id, "payload_hex": p.to_bytes(n, "little").hex()}})
+    return st, vios, None
+
+
+def _dispatch(t):
+    return _task(t[1]) if t[0] == "enum" else _task_history(t[1])
+
+
 def run(ctx):
     db = refdb.db()
     enc_defs = [d.idx for d in db.defs if d.encodable]
@@ -116,7 +159,11 @@ def run(ctx):
     buckets = [[] for _ in range(nb)]
     for j, i in enumerate(order):
         buckets[j % nb].append(i)
-    results = common.pmap(_task, [(b, k, narrow, ctx.seed) for b in buckets if b])
+    tasks = [("enum", (b, k, narrow, ctx.seed)) for b in buckets if b]
+    allp = sorted(db.by_pgn)
+    for i in range(4):
+        tasks.append(("hist", (allp[i::4],)))
+    results = common.pmap(_dispatch, tasks)
     vios, samples = [], []
     tot = {"cases": 0, "roundtrips": 0, "nontrivial": 0, "defs": 0}
     for st, v, s in results:
